@@ -123,7 +123,9 @@ def canon_schema(schema, with_python=False, with_enum_values=False):
 def sdl_view(ir):
     """The IR as SDL can carry it: enum values are their names, scalars are transparent,
     no python names."""
-    v = copy.deepcopy(ir)
+    from ..gen.schemair import clone as _clone
+
+    v = _clone(ir)
     for t in v.types.values():
         t.strict = False
         t.vanishing = False
